@@ -180,3 +180,6 @@ def check(ctx):
     # a freed slot is always filed on its list (never given back by shortening the file): what later calls read at that
     # offset stays inside the file
     import_rules(ctx, "c06", {"push-pop-inverse"})
+    # the stored item count is part of the image: it is stepped from the value read from the file at that moment, never
+    # from a copy an earlier (possibly read-only) call left in memory
+    import_rules(ctx, "c05", {"count-step", "count-writers"})
